@@ -152,6 +152,13 @@ func (s *dgramSession) exchange(c *cell) (o observation) {
 		}
 
 		o.hrec = &rec
+		if rec.NoWrite == "nil" && s.p.family == famUDP {
+			// The plain server documents silence for a handler that writes
+			// nothing; there is nothing to wait for.
+			o.outcome = "no-response: the handler wrote nothing"
+
+			return o
+		}
 		if rec.WriteErr != "" && !c.sh.Propagate {
 			// The kernel refused the datagram and the handler swallowed the
 			// error: nothing is to come.
